@@ -69,8 +69,11 @@ def random_game(rng, n, acyclic=False, nonabs=False, **kw):
     players, tl = [], []
     for s in range(n):
         if s in absorbing:
-            players.append(PR)
-            tl.append([(1, s)])
+            # absorbing states (finals, the losing sink) are usually probabilistic, sometimes a player state that can only stay:
+            # the conditioning treats the three owners differently (a Player 2 sink keeps its self-loop, a probabilistic one loses it)
+            own = rng.choice([PR, PR, PR, P1, P2])
+            players.append(own)
+            tl.append([(1, s)] if own == PR else [("stay", s)])
             continue
         higher = [t for t in range(n) if rank[t] > rank[s]]
         pl = rng.choice([P1, P2, PR, PR])
@@ -133,6 +136,13 @@ def shaped_games():
     # near-tie of reachability values at a Player 2 state (0.5 vs 0.5000002): a tie at the solver's 6 digits, with different costs behind
     out.append(mk_game([P2, PR, PR, PR, PR], [[("x", 1), ("y", 2)], [(0.5, 3), (0.5, 4)], [(0.5000002, 3), (0.4999998, 4)], [(1, 3)], [(1, 4)]], [0, 9, 3, 0, 0], [3]))
     out.append(mk_game([P1, PR, PR, PR, PR], [[("x", 1), ("y", 2)], [(0.5, 3), (0.5, 4)], [(0.5000002, 3), (0.4999998, 4)], [(1, 3)], [(1, 4)]], [0, 9, 3, 0, 0], [3]))
+    # a CHAIN of near-ties (0.5, 0.5000008, 0.5000016: neighbours closer than 1e-6, the ends not): a tie test that is not an
+    # equivalence (|x - y| <= tol) gives answers that depend on the order in which the actions are listed
+    for pl in (P1, P2):
+        out.append(mk_game([pl, PR, PR, PR, PR, PR], [[("a", 1), ("b", 2), ("c", 3)], [(0.5, 4), (0.5, 5)], [(0.5000008, 4), (0.4999992, 5)], [(0.5000016, 4), (0.4999984, 5)], [(1, 4)], [(1, 5)]],
+                           [0, 1, 5, 2, 0, 0], [4]))
+        out.append(mk_game([pl, PR, PR, PR, PR, PR], [[("a", 1), ("c", 3), ("b", 2)], [(0.5, 4), (0.5, 5)], [(0.5000008, 4), (0.4999992, 5)], [(0.5000016, 4), (0.4999984, 5)], [(1, 4)], [(1, 5)]],
+                           [0, 1, 5, 2, 0, 0], [4]))
     # a long shot: positive but tiny reachability values next to exact zeros
     for eps in (1e-7, 1e-9):
         out.append(mk_game([PR, PR, PR, PR, PR], [[(0.25, 1), (0.5, 2), (0.25, 4)], [(eps, 4), (1 - eps, 3)], [(0.5, 4), (0.5, 3)], [(1, 3)], [(1, 4)]], [1, 1, 1, 0, 0], [4]))
@@ -302,7 +312,8 @@ class Capture:
             return orig(self)
         tad.Solver.solve_total_rewards = wrapped
         try:
-            sg = tad.StochasticGame(**copy.deepcopy(game), prune_states=prune)
+            sg = s.obj if getattr(s, 'obj', None) is not None else tad.StochasticGame(**copy.deepcopy(game), prune_states=prune)
+            sg.prune_states = prune
             return sg.solve()
         finally:
             tad.Solver.solve_total_rewards = orig
